@@ -278,4 +278,78 @@ theorem totalVolume_eq_fibre_sum [Field K] (subs : List (SubDom K)) (sp : Spaces
 
 end Masked
 
+/-! ### existence: where `mean` is defined, `integrate` and `total_volume` are -/
+section Exists
+variable {K : Type}
+
+theorem integrate_of_mean [Field K] [DecidableEq K] (f m : Fld K) (sp : Spaces) (hm : mean f sp = .ok m) :
+    ∃ h, integrate f sp = .ok h := by
+  unfold mean at hm
+  unfold integrate
+  cases hsw : scalarWeight f.subs sp with
+  | error e => simp only [hsw] at hm; cases hm
+  | ok r =>
+    cases r with
+    | some swgt =>
+      simp only [hsw] at hm ⊢
+      cases hp : parseSpaces sp f.subs.length with
+      | error e => simp only [hp] at hm; cases hm
+      | ok l => exact ⟨smulFloat (contractFld f l (max f.dt DT.int) contract) swgt, by simp only [fsum, hp]⟩
+    | none =>
+      simp only [hsw] at hm ⊢
+      cases hw : weight f 1 sp with
+      | error e => simp only [hw] at hm; cases hm
+      | ok tmp =>
+        simp only [hw] at hm ⊢
+        cases hs : fsum tmp sp with
+        | error e => simp only [hs] at hm; cases hm
+        | ok s => exact ⟨s, rfl⟩
+
+theorem totalVolumeLoop_ok [Field K] (subs : List (SubDom K)) (hs : ∀ s ∈ subs, s.tv = none ∧ s.dvol ≠ .none) :
+    ∀ (l : List Nat) (res : K), (∀ i ∈ l, i < subs.length) →
+      ∃ V, totalVolumeLoop subs (l.map Int.ofNat) res = .ok V := by
+  intro l
+  induction l with
+  | nil => intro res _; exact ⟨res, rfl⟩
+  | cons i t ih =>
+    intro res hlt
+    have hi : i < subs.length := hlt i (by simp)
+    have hmem : subs.getD i default ∈ subs := by
+      simp [List.getD_eq_getElem?_getD, List.getElem?_eq_getElem hi]
+    obtain ⟨htv, hdv⟩ := hs _ hmem
+    simp only [List.map_cons, totalVolumeLoop, pyGet_ofNat subs i hi, SubDom.totalVolume, htv]
+    cases hd : (subs.getD i default).dvol with
+    | none => exact absurd hd hdv
+    | scalar w => simp only []; exact ih _ (fun j hj => hlt j (by simp [hj]))
+    | vector w => simp only []; exact ih _ (fun j hj => hlt j (by simp [hj]))
+
+theorem totalVolume_ok [Field K] (subs : List (SubDom K)) (sp : Spaces) (l : List Nat)
+    (hp : parseSpaces sp subs.length = .ok l) (hs : ∀ s ∈ subs, s.tv = none ∧ s.dvol ≠ .none) :
+    ∃ V, totalVolume subs sp = .ok V := by
+  obtain ⟨hlt, hints⟩ := parseSpaces_ok hp
+  rw [totalVolume_eq_loop, hints]
+  exact totalVolumeLoop_ok subs hs l 1 hlt
+
+theorem sel_merge : ∀ (mask : List Bool) (o c : Idx), o.length = (mask.filter (· == false)).length →
+    sel false mask (merge mask o c) = o := by
+  intro mask
+  induction mask with
+  | nil => intro o c h; simp at h; simp [sel, h]
+  | cons b m ih =>
+    intro o c h
+    cases b with
+    | true =>
+      simp only [merge, sel]
+      simp at h
+      simpa using ih o c.tail (by simpa using h)
+    | false =>
+      cases o with
+      | nil => simp at h
+      | cons x o' =>
+        simp only [merge, sel, List.headD_cons, List.tail_cons]
+        simp at h
+        simpa using ih o' c (by simpa using h)
+
+end Exists
+
 end NiftyVerif.FieldM
